@@ -749,7 +749,13 @@ class TradingEnvXY(TradingEnv):
 
         if rate is None:
             rate = pd.Series(name='Zero Rate', dtype=float)
-        rate = rate.squeeze().loc[start:end]
+        rate = rate.squeeze()
+        if not rate.empty:
+            # Carry the rate in force onto every trading date: a rate published
+            # before `start`, or on dates of its own (e.g. monthly), must be
+            # known from the first step of any episode, whatever the warm-up.
+            rate = rate.reindex(rate.index.union(Y.index)).ffill()
+        rate = rate.loc[start:end].dropna()
         rate.name = Rate(rate.name)
         if not rate.between(-1, +1).all():
             raise ValueError(
